@@ -202,6 +202,11 @@ def run_contract(reg, c, args: dict, universe=None):
     e1 = dict(env)
     e1.update(entry)
     e1['result'] = result
+    if c.then_call is not None:
+        try:
+            e1['result2'] = result(*[live[g] for g in c.then_call])
+        except Exception as ex:
+            return {'ok': False, 'stage': 'unexpected-exception', 'detail': f'calling the returned function: {type(ex).__name__}: {ex}'}
 
     def new(x):
         for k, v in entry.items():
@@ -246,7 +251,9 @@ def _same(a, b):
 
 
 def args_from_inputs(c, inputs):
-    return {k: build(S, inputs.get(k)) for k, S in c.params.items()}
+    d = {k: build(S, inputs.get(k)) for k, S in c.params.items()}
+    d.update({k: build(S, inputs.get(k)) for k, S in c.ghosts.items()})
+    return d
 
 
 def replay_inputs(reg, c, inputs):
